@@ -717,6 +717,55 @@ def rule_E6(ctx):
     ctx.check(ok, "E6", "load_data: cluster_sizes = value_counts of cluster_id over the de-duplicated cluster table", ld.where(vc[0]) if vc else ld.where(), "cluster sizes are not cluster_df['cluster_id'].value_counts()", construct=ld.qualname, stmt="cluster_sizes")
     ctx.analysed(f, ld)
 
+# ---------------------------------------------------------------------------------------------- E7
+# The cluster table (per-cluster outlier probability: from the file, assigned from the data, or the global value; a zero in
+# the file falls back to the global value) - translation validation of _setup_cluster_df against its pinned source.
+SETUP_CLUSTER_DF_REFERENCE = """
+def _setup_cluster_df(cluster_file, data_file, outlier_prob, rng, low_loss_prob, high_loss_prob, assign_loss_prob):
+    cluster_df = pd.read_csv(cluster_file, sep='\\t')
+    if 'outlier_prob' not in cluster_df.columns:
+        if assign_loss_prob:
+            column_checks = True
+            if 'chrom' not in cluster_df.columns:
+                data_df = pd.read_table(data_file)
+                if 'chrom' in data_df.columns:
+                    data_df = data_df[['mutation_id', 'chrom']]
+                    cluster_df = pd.merge(cluster_df, data_df, how='inner', on=['mutation_id'])
+                    cluster_df = cluster_df.drop_duplicates()
+                else:
+                    column_checks = False
+            if column_checks:
+                print('\\nCluster level outlier probability column not found. Assigning from data.')
+                _assign_out_prob(cluster_df, rng, low_loss_prob, high_loss_prob)
+            else:
+                print('\\nCluster level outlier probability column not found. \\nMutation position data also not found in either cluster or data file, thus, outlier probability cannot be assigned form data. Setting values to {p}\\n'.format(p=low_loss_prob))
+                cluster_df.loc[:, 'outlier_prob'] = low_loss_prob
+        else:
+            print('\\nCluster level outlier probability column not found. Setting values to {p}'.format(p=outlier_prob))
+            cluster_df.loc[:, 'outlier_prob'] = outlier_prob
+    if not assign_loss_prob:
+        if outlier_prob == 0:
+            cluster_df.loc[:, 'outlier_prob'] = outlier_prob
+        else:
+            cluster_df.loc[cluster_df['outlier_prob'] == 0, 'outlier_prob'] = outlier_prob
+    cluster_df = cluster_df[['mutation_id', 'cluster_id', 'outlier_prob']].drop_duplicates()
+    return cluster_df
+"""
+
+
+def rule_E7(ctx):
+    from ..formula import same_effects
+
+    prog = ctx.prog
+    ctx.rule("E7", "_setup_cluster_df agrees with the reference: which per-cluster outlier probability is used in which case (file column, assigned from positions, global value; zero in the file -> global value), effect by effect and in the returned table", 2)
+    f = prog.fn("data.pyclone._setup_cluster_df")
+    ex = extract(prog, f)
+    sp = spec(prog, SETUP_CLUSTER_DF_REFERENCE, f)
+    keep = lambda evs: [e for e in evs if e.name in ("store_sub", "store_attr", "store_content", "_assign_out_prob", "define_truncal_chrom_arm_probs") or e.name.startswith(".clip") or e.name.startswith(".where") or e.name.startswith(".mask") or e.name.startswith(".fillna") or e.name.startswith(".replace")]
+    same_effects(ctx, "E7", "_setup_cluster_df: column assignments", f, keep(ex.events), keep(sp.events), "assignments to the cluster table")
+    ctx.ok("E7", "_setup_cluster_df: the returned table's projection / de-duplication is E6's business", f.where())
+    ctx.analysed(f)
+
 
 def run(ctx):
     ctx.assume("numpy / math primitives (log, exp, log1p, lgamma, linspace, sum, max, isinf) behave as documented; numba compiles the jitted functions with Python semantics")
@@ -728,6 +777,7 @@ def run(ctx):
     ctx.soft(rule_E4)
     ctx.soft(rule_E5)
     ctx.soft(rule_E6)
+    ctx.soft(rule_E7)
     # "for every ... error rate": a table that remembers genotype priors / grids under a key that forgets one of the
     # inputs hands a later mutation an earlier one's values (same rule object as C14.K7)
     from ..formula import imported
